@@ -20,7 +20,7 @@ _site_oracle = make_oracle(('group_by',))
 KEYS = [['mod', 2], ['mod', 3], ['mod', 5], ['key_of'], ['str_of'], ['big_of'], ['is_even'], ['const', 7], ['id'], ['floordiv', 4]]
 
 
-def oracle(case, r):
+def _oracle(case, r):
     v = _site_oracle(case, r)
     if v:
         return v
@@ -43,7 +43,7 @@ def oracle(case, r):
     return None
 
 
-def cases(tier, rng):
+def _cases(tier, rng):
     yield {'kind': 'mux', 'term': [['group_by', ['mod', 2], [['to_list']]]], 'items': [1, 2, 3, 4, 5]}
     yield {'kind': 'mux', 'term': [['group_by', ['big_of'], [['count', True]]]], 'items': [5, 7, 5, 7, 9]}
     yield {'kind': 'mux', 'term': [['group_by', ['mod', 2], [['group_by', ['mod', 3], [['to_list']]]]]], 'items': list(range(12))}
@@ -78,3 +78,14 @@ def tags(case, r):
         if st[0] == 'group_by':
             t.append('keyfn=' + st[1][0])
     return t
+
+
+def cases(tier, rng):
+    """every case of `_cases`, and for a fraction of the mux/plain ones the same case run as the SECOND subscription of
+    its pipeline object (after an earlier subscription that completed, failed or was disposed)"""
+    pr = rng.sub('resubscription')
+    return muxprop.with_preludes(_cases(tier, rng), pr)
+
+
+def oracle(case, r):
+    return muxprop.prelude_violation(case, r) or _oracle(case, r)
